@@ -585,13 +585,15 @@ package stats
 //@   ensures [err-other] err == nil || err == ErrSampleSize || err == ErrSamplesEqual
 //@   ensures [nil-on-error] err != nil ==> res == nil
 //@   ensures [fields]    err == nil ==> res != nil && res.N1 == len(x1) && res.N2 == len(x2) && res.AltHypothesis == alt
-//@   loop 1 (i) invariant len(labels) == len(merged) && sortedF(merged) && (forall k in 0..len(labels) :: labels[k] == 1 || labels[k] == 2) && (i == 0 || i == len(merged) || merged[i-1] < merged[i]) && 2 * R1 == cnt1(labels, i) * (cnt1(labels, i) + 1) + pairs2(merged, labels, len(merged), i) && 0 <= i && i <= len(merged) && (isnil(T) || (fresh(T) && region(T) != region(labels))) && (forall k in 0..len(T) :: T[k] >= 1) && (hasTies <==> tied(T)) && (i == 0 <==> len(T) == 0)
+//@   loop 1 (i) invariant len(labels) == len(merged) && sortedF(merged) && (forall k in 0..len(labels) :: labels[k] == 1 || labels[k] == 2) && (i == 0 || i == len(merged) || merged[i-1] < merged[i]) && 2 * R1 == cnt1(labels, i) * (cnt1(labels, i) + 1) + pairs2(merged, labels, len(merged), i) && 0 <= i && i <= len(merged) && (isnil(T) || (fresh(T) && region(T) != region(labels))) && (forall k in 0..len(T) :: T[k] >= 1) && (hasTies <==> tied(T)) && (i == 0 <==> len(T) == 0) && (len(T) == 1 ==> (forall a in 0..i :: merged[a] == merged[0])) && (len(T) >= 2 ==> merged[0] < merged[i-1])
 //@   loop 2 invariant rank1 - 1 <= i && i <= len(merged) && nx1 >= 0 && len(labels) == len(merged) && nx1 == cnt1(labels, i) - cnt1(labels, rank1 - 1) && (forall k in rank1-1..i :: merged[k] == v1) && (i > rank1 - 1 || (i < len(merged) && merged[i] == v1))
 //@   assert @loop2:exit [below] lt2(merged, labels, len(merged), v1) == cnt2(labels, rank1 - 1) by lt2_sorted(merged, labels, len(merged), v1, rank1 - 1)
 //@   assert @loop2:exit [upto]  le2(merged, labels, len(merged), v1) == cnt2(labels, i) by le2_sorted(merged, labels, len(merged), v1, i)
 //@   assert @loop2:exit [group] pairs2(merged, labels, len(merged), i) == pairs2(merged, labels, len(merged), rank1 - 1) + nx1 * (lt2(merged, labels, len(merged), v1) + le2(merged, labels, len(merged), v1)) by pairs2_group(merged, labels, len(merged), rank1 - 1, i, v1)
 //@   assert @loop2:exit [split] cnt1(labels, rank1 - 1) + cnt2(labels, rank1 - 1) == rank1 - 1 && cnt1(labels, i) + cnt2(labels, i) == i by cnt12(labels, rank1 - 1), cnt12(labels, i)
 //@   check @ret2 [equal-exact] len(T) == 1
+//@   check @ret2 [all-equal]   forall a in 0..len(merged) :: merged[a] == merged[0]
+//@   check @ret4 [not-all-equal-exact] ((!hasTies && n1 <= MannWhitneyExactLimit && n2 <= MannWhitneyExactLimit) || (hasTies && n1 <= MannWhitneyTiesExactLimit && n2 <= MannWhitneyTiesExactLimit)) ==> merged[0] < merged[len(merged)-1]
 //@   check @ret4 [U-field] res.U == U1 && res.P == p
 //@   check @ret4 [U-pairs] 2 * U1 == pairs2(merged, labels, len(merged), len(merged)) && cnt1(labels, len(labels)) == n1
 //@   check @ret4 [exact-less]    ((!hasTies && n1 <= MannWhitneyExactLimit && n2 <= MannWhitneyExactLimit) || (hasTies && n1 <= MannWhitneyTiesExactLimit && n2 <= MannWhitneyTiesExactLimit)) && alt == LocationLess ==> p == UDist{n1, n2, T}.CDF(U1)
